@@ -309,7 +309,14 @@ Definition put_slot (s : slot) (c : option rsrc) (r : rsrc) : out rsrc :=
 
 (* the resource whose fields a command works on: the one in a variable (owned access,
    `x.arr.append(..)`) or the target of a reference (`r.arrAppend(..)`) *)
-Inductive base := BVar (x : Z) | BRef (r : Z).
+Inductive base :=
+| BVar (x : Z)     (* the resource held by a variable (owned access) *)
+| BRef (r : Z)     (* the target of a reference *)
+| BSto (p : Z).    (* the value stored at a path, accessed in place.  Used for the contract: the
+                      contract value is a stored composite that is not a resource but owns resources
+                      in an optional field, an array field and a dictionary field, exactly the shape of
+                      [rsrc]; it is modelled as a pseudo-resource (uuid 0, no event) that sits at a
+                      reserved path from the start and is only ever accessed in place *)
 
 Inductive place := PVar (x : Z) | PSto (p : Z) | PChild (b : base) (s : slot).
 
@@ -357,6 +364,7 @@ Definition base_res (st : state) (b : base) : out rsrc :=
   match b with
   | BVar x => match assoc x (vars st) with Some r => Done r | None => Fail EStatic end
   | BRef r => match assoc r (refs st) with Some v => resolve_rv st v | None => Fail EStatic end
+  | BSto p => match assoc p (store st) with Some r => Done r | None => Fail EStatic end
   end.
 
 (* the receiver of a nested access is evaluated (and checked) before anything moves *)
@@ -550,6 +558,13 @@ Definition run_tx (cs : list cmd) (p : pstate) : pstate * txobs :=
       | _ :: _ => (mkP (p_store p) (next st), mkObs (Some ELoss) (next st) (logs st) (dead st) (p_store p))
       end
   end.
+
+(* The contract of the test bench owns resources in an optional field, an array field and a
+   dictionary field.  Its value is stored with the account, committed and rolled back like
+   account storage, and only accessed in place ([BSto contract_path]). *)
+Definition contract_path : Z := 100.
+Definition contract_value : rsrc := Rs 0 false 0 [].
+Definition init_pstate (n0 : Z) : pstate := mkP [(contract_path, contract_value)] n0.
 
 Fixpoint run_hist (h : list (list cmd)) (p : pstate) : pstate * list txobs :=
   match h with
